@@ -235,20 +235,35 @@ def gen_gridops():
     tree = ast.parse(text)
     helpers = {}
     entries = []
+    consts_env = module_constants(tree)
     for node in tree.body:
         if not isinstance(node, ast.FunctionDef):
             continue
         deco = None
+        deco_kwargs = None
         for d in node.decorator_list:
             if isinstance(d, ast.Call) and isinstance(d.func, ast.Name) and d.func.id == "as_grid_ufunc":
                 deco = d
-        if deco is None:
+            else:
+                # a decorator factory / functools.partial of one: evaluate it down to as_grid_ufunc(**kwargs)
+                try:
+                    v = _const_eval(d, consts_env)
+                    if isinstance(v, _Deco):
+                        deco_kwargs = v.kwargs
+                except Exception:  # noqa: BLE001
+                    pass
+        if deco is None and deco_kwargs is None:
             helpers[node.name] = node
             continue
-        sig = literal(_kw(deco, "signature")) if _kw(deco, "signature") is not None else None
-        bw = literal(_kw(deco, "boundary_width")) if _kw(deco, "boundary_width") is not None else None
-        opts = {k.arg: literal(k.value) for k in deco.keywords
-                if k.arg not in ("signature", "boundary_width")}
+        if deco is not None:
+            sig = literal(_kw(deco, "signature")) if _kw(deco, "signature") is not None else None
+            bw = literal(_kw(deco, "boundary_width")) if _kw(deco, "boundary_width") is not None else None
+            opts = {k.arg: literal(k.value) for k in deco.keywords
+                    if k.arg not in ("signature", "boundary_width")}
+        else:
+            sig = deco_kwargs.get("signature")
+            bw = deco_kwargs.get("boundary_width")
+            opts = {k: v for k, v in deco_kwargs.items() if k not in ("signature", "boundary_width")}
         parsed = parse_simple_sig(sig) if isinstance(sig, str) else None
         try:
             if len(node.args.args) != 1:
@@ -315,6 +330,196 @@ def module_assign(tree, name):
     return None
 
 
+# --------------------------------------------------------------------------
+# module-level constants: a small evaluator of constant expressions
+# --------------------------------------------------------------------------
+
+class _NotConstant(Exception):
+    pass
+
+
+_PURE_BUILTINS = {"tuple": tuple, "list": list, "dict": dict, "set": set, "frozenset": frozenset, "sorted": sorted,
+                  "zip": zip, "range": range, "len": len, "str": str, "int": int, "float": float, "reversed": reversed,
+                  "enumerate": enumerate, "min": min, "max": max}
+_PURE_METHODS = {str: {"split", "join", "strip", "lower", "upper", "format", "replace", "rstrip", "lstrip"},
+                 dict: {"keys", "values", "items", "get", "copy"}, tuple: {"index", "count"}, list: {"index", "count", "copy"}}
+
+
+def _const_eval(node, env):
+    """value of an expression built from literals, earlier module constants, displays (with * / ** unpacking),
+    f-strings, + and |, subscripts, and calls of a few pure builtins / methods (dict.fromkeys, str.split, ...)"""
+    if isinstance(node, ast.Constant):
+        return node.value
+    if isinstance(node, ast.Name):
+        if node.id in env:
+            return env[node.id]
+        raise _NotConstant(node.id)
+    if isinstance(node, (ast.Tuple, ast.List, ast.Set)):
+        out = []
+        for e in node.elts:
+            if isinstance(e, ast.Starred):
+                out.extend(_const_eval(e.value, env))
+            else:
+                out.append(_const_eval(e, env))
+        return tuple(out) if isinstance(node, ast.Tuple) else (list(out) if isinstance(node, ast.List) else set(out))
+    if isinstance(node, ast.Dict):
+        out = {}
+        for k, v in zip(node.keys, node.values):
+            if k is None:
+                out.update(_const_eval(v, env))
+            else:
+                out[_const_eval(k, env)] = _const_eval(v, env)
+        return out
+    if isinstance(node, ast.JoinedStr):
+        out = ""
+        for v in node.values:
+            if isinstance(v, ast.Constant):
+                out += v.value
+            elif isinstance(v, ast.FormattedValue) and v.conversion == -1 and v.format_spec is None:
+                out += format(_const_eval(v.value, env))
+            else:
+                raise _NotConstant("f-string")
+        return out
+    if isinstance(node, ast.UnaryOp) and isinstance(node.op, ast.USub):
+        return -_const_eval(node.operand, env)
+    if isinstance(node, ast.BinOp) and isinstance(node.op, (ast.Add, ast.BitOr, ast.Mult, ast.Div, ast.Sub)):
+        l, r = _const_eval(node.left, env), _const_eval(node.right, env)
+        if isinstance(node.op, ast.Add):
+            return l + r
+        if isinstance(node.op, ast.BitOr):
+            return l | r
+        if isinstance(node.op, ast.Mult):
+            return l * r
+        if isinstance(node.op, ast.Sub):
+            return l - r
+        return l / r
+    if isinstance(node, ast.Subscript):
+        return _const_eval(node.value, env)[_const_eval(node.slice, env)]
+    if isinstance(node, ast.Call):
+        args = []
+        for a in node.args:
+            if isinstance(a, ast.Starred):
+                args.extend(_const_eval(a.value, env))
+            else:
+                args.append(_const_eval(a, env))
+        kwargs = {}
+        for k in node.keywords:
+            if k.arg is None:
+                kwargs.update(_const_eval(k.value, env))
+            else:
+                kwargs[k.arg] = _const_eval(k.value, env)
+        f = node.func
+        # the decorator itself, functools.partial and one-expression helper functions of the module (decorator
+        # factories): evaluated symbolically
+        if isinstance(f, ast.Name) and f.id == "as_grid_ufunc" and f.id not in env:
+            return _Deco(kwargs) if not args else _raise_not_constant()
+        if ((isinstance(f, ast.Attribute) and isinstance(f.value, ast.Name) and f.value.id == "functools"
+             and f.attr == "partial") or (isinstance(f, ast.Name) and f.id == "partial" and "partial" not in env)) and args:
+            return _Partial(args[0], tuple(args[1:]), dict(kwargs))
+        callee = None
+        if isinstance(f, ast.Name) and isinstance(env.get(f.id), (_Func, _Partial)):
+            callee = env[f.id]
+        elif not isinstance(f, (ast.Name, ast.Attribute)):
+            c = _const_eval(f, env)
+            callee = c if isinstance(c, (_Func, _Partial)) else None
+        if callee is not None:
+            return _apply_callable(callee, args, kwargs, env)
+        if isinstance(f, ast.Name) and f.id in _PURE_BUILTINS and f.id not in env:
+            v = _PURE_BUILTINS[f.id](*args, **kwargs)
+            return list(v) if isinstance(v, (zip, range, reversed, enumerate)) else v
+        if isinstance(f, ast.Attribute):
+            if isinstance(f.value, ast.Name) and f.value.id == "dict" and f.attr == "fromkeys" and "dict" not in env:
+                return dict.fromkeys(*args)
+            base = _const_eval(f.value, env)
+            for ty, names in _PURE_METHODS.items():
+                if isinstance(base, ty) and f.attr in names:
+                    v = getattr(base, f.attr)(*args, **kwargs)
+                    return list(v) if not isinstance(v, (str, int, float, tuple, list, dict, type(None))) else v
+        raise _NotConstant("call")
+    raise _NotConstant(type(node).__name__)
+
+
+class _Deco:
+    """as_grid_ufunc(**kwargs)"""
+    def __init__(self, kwargs):
+        self.kwargs = kwargs
+
+
+class _Func:
+    """a module-level function whose body is `return <expression>` (after an optional docstring)"""
+    def __init__(self, node):
+        self.node = node
+
+
+class _Partial:
+    def __init__(self, func, args, kwargs):
+        self.func, self.args, self.kwargs = func, args, kwargs
+
+
+def _raise_not_constant():
+    raise _NotConstant("positional argument to as_grid_ufunc")
+
+
+def _apply_callable(c, args, kwargs, env, depth=0):
+    if depth > 6:
+        raise _NotConstant("depth")
+    if isinstance(c, _Partial):
+        return _apply_callable(c.func, list(c.args) + list(args), {**c.kwargs, **kwargs}, env, depth + 1)
+    if not isinstance(c, _Func):
+        raise _NotConstant("callee")
+    fn = c.node
+    a = fn.args
+    if a.posonlyargs or a.kwonlyargs or a.vararg:
+        raise _NotConstant("signature")
+    params = [x.arg for x in a.args]
+    if len(args) > len(params):
+        raise _NotConstant("arity")
+    bound = dict(zip(params, args))
+    extra = {}
+    for k, v in kwargs.items():
+        if k in params and k not in bound:
+            bound[k] = v
+        elif a.kwarg is not None:
+            extra[k] = v
+        else:
+            raise _NotConstant("keyword")
+    defaults = dict(zip(params[len(params) - len(a.defaults):], a.defaults))
+    for p_ in params:
+        if p_ not in bound:
+            if p_ in defaults:
+                bound[p_] = _const_eval(defaults[p_], env)
+            else:
+                raise _NotConstant("missing argument")
+    if a.kwarg is not None:
+        bound[a.kwarg.arg] = extra
+    local = dict(env)
+    local.update(bound)
+    body = [s_ for s_ in fn.body if not (isinstance(s_, ast.Expr) and isinstance(s_.value, ast.Constant))]
+    if len(body) != 1 or not isinstance(body[0], ast.Return) or body[0].value is None:
+        raise _NotConstant("body")
+    return _const_eval(body[0].value, local)
+
+
+def module_constants(tree):
+    """name -> value for every module-level assignment whose right-hand side is a constant expression (and, for
+    the evaluation of decorator factories, every undecorated module-level function as a `_Func`)"""
+    env = {}
+    for node in tree.body:
+        if isinstance(node, ast.FunctionDef) and not node.decorator_list:
+            env[node.name] = _Func(node)
+            continue
+        tgt = node.targets[0] if isinstance(node, ast.Assign) and len(node.targets) == 1 else (
+            node.target if isinstance(node, ast.AnnAssign) else None)
+        val = getattr(node, "value", None)
+        if isinstance(tgt, ast.Name) and val is not None:
+            try:
+                env[tgt.id] = _const_eval(val, env)
+            except Exception:  # noqa: BLE001
+                env.pop(tgt.id, None)
+    return env
+
+
+
 def find_func(tree, name, cls=None):
     for node in ast.walk(tree):
         if isinstance(node, ast.ClassDef) and cls is not None and node.name == cls:
@@ -335,12 +540,8 @@ def pos_term(p):
 
 
 def _literal_by_shape(tree, pred):
-    """the first literal assigned at module level (whatever the constant is called) that satisfies `pred`"""
-    for node in tree.body:
-        val = getattr(node, "value", None) if isinstance(node, (ast.Assign, ast.AnnAssign)) else None
-        if val is None:
-            continue
-        v = literal(val)
+    """the first module-level constant (whatever it is called) whose value satisfies `pred`"""
+    for v in module_constants(tree).values():
         try:
             if v is not None and pred(v):
                 return v
@@ -351,15 +552,16 @@ def _literal_by_shape(tree, pred):
 
 def gen_axis():
     tree = ast.parse(src("axis.py"))
-    valid = literal(module_assign(tree, "VALID_POSITION_NAMES"))
+    consts = module_constants(tree)
+    valid = consts.get("VALID_POSITION_NAMES")
     if not isinstance(valid, str):        # renamed: the "|"-separated string of the five position words
         valid = _literal_by_shape(tree, lambda v: isinstance(v, str) and sorted(v.split("|")) == sorted(POSITIONS))
-    fb = literal(module_assign(tree, "FALLBACK_SHIFTS"))
+    fb = consts.get("FALLBACK_SHIFTS")
     if not isinstance(fb, dict):          # renamed: the mapping position -> sequence of positions
         fb = _literal_by_shape(tree, lambda v: isinstance(v, dict) and len(v) >= 3 and all(
             k in POSITIONS and isinstance(vs, (list, tuple)) and all(x in POSITIONS for x in vs) for k, vs in v.items()))
     ptree = ast.parse(src("padding.py"))
-    padmap = literal(module_assign(ptree, "_XGCM_BOUNDARY_KWARG_TO_XARRAY_PAD_KWARG"))
+    padmap = module_constants(ptree).get("_XGCM_BOUNDARY_KWARG_TO_XARRAY_PAD_KWARG")
     if not isinstance(padmap, dict):      # renamed: the mapping boundary word -> pad mode
         padmap = _literal_by_shape(ptree, lambda v: isinstance(v, dict) and {"periodic", "fill", "extend"} <= set(v)
                                    and all(isinstance(x, str) for x in v.values()))
@@ -789,15 +991,11 @@ def lean_chars(s):
 def gen_regex():
     text = src("grid_ufunc.py")
     tree = ast.parse(text)
-    env = {}
     wanted = ["_AXIS_NAME", "_AXIS_POSITION", "_AXIS_NAME_POSITION_PAIR", "_AXIS_NAME_POSITION_PAIR_LIST",
               "_ARGUMENT", "_ARGUMENT_LIST", "_SIGNATURE"]
-    for node in tree.body:
-        if isinstance(node, ast.Assign) and len(node.targets) == 1 and isinstance(node.targets[0], ast.Name):
-            v = _eval_strexpr(node.value, env)
-            if v is not None:
-                env[node.targets[0].id] = v
-    disallowed = literal(module_assign(tree, "DISALLOWED_OVERLAP_POSITIONS"))
+    env = {k: v for k, v in module_constants(tree).items() if isinstance(v, str)}
+    disallowed = module_constants(tree).get("DISALLOWED_OVERLAP_POSITIONS")
+    disallowed = list(disallowed) if isinstance(disallowed, (list, tuple, set, frozenset)) else None
     # how the string parser tests the pattern: re.match / re.fullmatch
     matcher = None
     fn = find_func(tree, "_parse_signature_from_string")
@@ -1401,11 +1599,7 @@ def gen_tables():
     ctree = ast.parse(src("comodo.py"))
     consts = {}
     for nm in ("axis_shift_left", "axis_shift_right", "axis_shift_center"):
-        v = module_assign(ctree, nm)
-        try:
-            consts[nm] = literal(v) if v is not None else None
-        except Exception:
-            consts[nm] = None
+        consts[nm] = module_constants(ctree).get(nm)
     def twice(x):
         return str(int(round(float(x) * 2))) if isinstance(x, (int, float)) and float(x) * 2 == round(float(x) * 2) else "999"
     lines.append("/-- COMODO `c_grid_axis_shift` constants (left, right, center), doubled -/")
@@ -1413,11 +1607,8 @@ def gen_tables():
                  ("axis_shift_left", "axis_shift_right", "axis_shift_center")) + "]")
     # padding.py: boundary word -> pad mode
     ptree = ast.parse(src("padding.py"))
-    pm = module_assign(ptree, "_XGCM_BOUNDARY_KWARG_TO_XARRAY_PAD_KWARG")
-    try:
-        pmv = literal(pm) if pm is not None else {}
-    except Exception:
-        pmv = {}
+    pmv = module_constants(ptree).get("_XGCM_BOUNDARY_KWARG_TO_XARRAY_PAD_KWARG")
+    pmv = pmv if isinstance(pmv, dict) else {}
     if not pmv:
         pmv = _literal_by_shape(ptree, lambda v: isinstance(v, dict) and {"periodic", "fill", "extend"} <= set(v)
                                 and all(isinstance(x, str) for x in v.values())) or {}
